@@ -165,6 +165,8 @@ def parse_trace(out):
         nonlocal buf, cur
         if cur is not None and buf:
             txt = "\n".join(buf)
+            if not txt.lstrip().startswith("/\\"):
+                txt = "/\\ " + txt.lstrip()
             for m in re.finditer(r"/\\ (\w+) = ((?:.|\n)*?)(?=\n/\\ \w+ = |\Z)", txt):
                 try:
                     cur[m.group(1)] = parse_tla(m.group(2).strip())
